@@ -225,7 +225,8 @@ func RunC03(args []string) *rep.Report {
 	hs := newHeadServer()
 	defer hs.srv.Close()
 	ctx := context.Background()
-	flips, syncs, pubs := 0, 0, 0
+	flips, syncs, syncs2, pubs := 0, 0, 0, 0
+	sharedSyncs := map[string]*ipnisync.Sync{}
 	idx := 0
 	err := rep.ReadNDJSON(*file, func(line []byte) error {
 		hc := new(headCase)
@@ -267,23 +268,39 @@ func RunC03(args []string) *rep.Report {
 			case ok && c != headCid(hc.Out.Head):
 				diverge("wrong-head-returned", "Validate accepted but yields another CID", headObs{Ok: ok, Head: c.String()})
 			}
-			// (b) through the real client: Syncer.GetHead against a server returning these bytes
+			// (b) through the real client: Syncer.GetHead against a server returning these bytes.  One Sync object
+			// serves all cases of a key type, and every crafted response is preceded by the honest head of the same
+			// publisher being fetched and accepted (a two-step history: whatever the client remembers from a valid
+			// head must not make it accept an altered one).
+			shared := sharedSyncs[kt]
+			if shared == nil {
+				shared = ipnisync.NewSync(mkLinkSystem(), nil, ipnisync.ClientHTTPTimeout(5*time.Second))
+				sharedSyncs[kt] = shared
+			}
+			if honest, err := head.NewSignedHead(headCid(hc.Case.Head), topicOf(hc.Case.Topic), ids.KeyT(hc.Case.Pub, kt)); err == nil {
+				if henc, err := honest.Encode(); err == nil {
+					hs.set(henc)
+					if sy, err := shared.NewSyncer(peer.AddrInfo{ID: ids.PeerT(hc.Case.Pub, kt), Addrs: []multiaddr.Multiaddr{hs.maddr()}}); err == nil {
+						if got, err := sy.GetHead(ctx); err != nil || got != headCid(hc.Case.Head) {
+							diverge("honest-head-rejected", fmt.Sprintf("honest head of %s: %v", hc.Case.Pub, err), nil)
+						}
+						syncs2++
+					}
+				}
+			}
 			hs.set(enc)
-			sync := ipnisync.NewSync(mkLinkSystem(), nil, ipnisync.ClientHTTPTimeout(5*time.Second))
-			syncer, err := sync.NewSyncer(peer.AddrInfo{ID: expected, Addrs: []multiaddr.Multiaddr{hs.maddr()}})
+			syncer, err := shared.NewSyncer(peer.AddrInfo{ID: expected, Addrs: []multiaddr.Multiaddr{hs.maddr()}})
 			if err != nil {
 				r.Inconclusive++
 				r.SetExtra("infra_example", err.Error())
-				sync.Close()
 				continue
 			}
 			got, gerr := syncer.GetHead(ctx)
-			sync.Close()
 			syncs++
 			gok := gerr == nil && got != cid.Undef
 			switch {
 			case gok != hc.Out.Ok:
-				diverge(map[bool]string{true: "accepted:" + hc.Case.Alt, false: "honest-head-rejected"}[gok], "Syncer.GetHead", headObs{Ok: gok, Err: fmt.Sprint(gerr)})
+				diverge(map[bool]string{true: "accepted:" + hc.Case.Alt, false: "honest-head-rejected"}[gok], "Syncer.GetHead (after an honest head was accepted)", headObs{Ok: gok, Err: fmt.Sprint(gerr)})
 			case gok && got != headCid(hc.Out.Head):
 				diverge("wrong-head-returned", "GetHead", headObs{Ok: gok, Head: got.String()})
 			}
@@ -346,8 +363,49 @@ func RunC03(args []string) *rep.Report {
 	}
 	r.SetExtra("byte_alterations", flips)
 	r.SetExtra("client_syncs", syncs)
+	r.SetExtra("honest_heads_fetched_first", syncs2)
+	r.SetExtra("publisher_setroot_races", racePublisher(r))
 	r.SetExtra("publisher_heads_checked", pubs)
 	return r
+}
+
+// racePublisher: head queries race with SetRoot; once SetRoot(x) has returned and the racing queries are done, the
+// head served must be x ("what a publisher serves as the head for the root it was given").  A slow RSA key keeps a
+// query inside its signing step long enough for SetRoot calls to land inside it.
+func racePublisher(r *rep.Report) int {
+	key := ids.KeyT("race-pub", "rsa")
+	pub, err := ipnisync.NewPublisher(mkLinkSystem(), key, ipnisync.WithStartServer(false))
+	if err != nil {
+		return 0
+	}
+	defer pub.Close()
+	roots := []string{"h1", "h2"}
+	n := 0
+	for i := 0; i < 120; i++ {
+		pub.SetRoot(headCid(roots[i%2]))
+		var wg sync.WaitGroup
+		for q := 0; q < 3; q++ {
+			wg.Add(1)
+			go func() {
+				defer wg.Done()
+				rec := httptest.NewRecorder()
+				pub.ServeHTTP(rec, httptest.NewRequest("GET", "/ipni/v1/ad/head", nil))
+			}()
+		}
+		want := roots[(i+1)%2]
+		time.Sleep(time.Duration(100+50*(i%8)) * time.Microsecond) // let the queries read the root and start signing (about 1 ms with RSA)
+		pub.SetRoot(headCid(want))                                 // lands while the queries above are signing the previous root
+		wg.Wait()
+		rec := httptest.NewRecorder()
+		pub.ServeHTTP(rec, httptest.NewRequest("GET", "/ipni/v1/ad/head", nil))
+		c, ok, _ := validateBytes(rec.Body.Bytes(), pub.ID())
+		n++
+		if !ok || c != headCid(want) {
+			r.Diverge(rep.Divergence{Key: "publisher-head-stale", Detail: fmt.Sprintf("round %d: SetRoot(%s) returned and all earlier queries finished, yet the publisher serves %s (valid=%v)", i, want, c, ok)})
+			break
+		}
+	}
+	return n
 }
 
 func publisherServes(kt, topic, h string) string {
